@@ -798,6 +798,43 @@ class Others(object):
         self.uids = []
         self.counts = {}
         self.shared = [a for a in spec.get("attrs", []) if a[0] in MULTI]
+        self.targets = []       # uids of the object(s) under test: only READ by these steps
+        self._wk = None
+
+    def _wrap_key(self):
+        """An active AES key with the Wrap Key bit, owned by alice (created on first use)."""
+        if self._wk is None:
+            c = H.Client(self.server, "alice", None, (1, 2))
+            r = c.one(F.create_item())
+            if r["status"] == "SUCCESS":
+                self._wk = r["payload"]["uid"]
+                c.one({"op": "Activate", "uid": self._wk})
+        return self._wk
+
+    def read_target(self, s):
+        """Read-only requests on the object under test (plain and wrapped Get, attribute reads),
+        alone or batched with a committing operation on ANOTHER object: none of them may change
+        what later reads return."""
+        if not self.targets:
+            return
+        t = self.targets[s["i"] % len(self.targets)]
+        c = H.Client(self.server, "alice", None, (1, 2))
+        mode = s.get("mode", "get")
+        wk = self._wrap_key() if "wrapped" in mode else None
+        get = {"op": "Get", "uid": t}
+        if wk is not None:
+            get["wrap"] = {"eki": {"uid": wk, "params": {"mode": "NIST_KEY_WRAP"}}, "enc": "NO_ENCODING"}
+        items = [get]
+        if mode.startswith("attrs"):
+            items = [{"op": "GetAttributes", "uid": t}, {"op": "GetAttributeList", "uid": t}]
+        if mode.endswith("+commit"):
+            items.append(F.create_item(extra_attrs=[["Name", "rt-%d" % self.counts.get("read-target", 0), 0]]))
+        if mode.endswith("+get"):
+            items.append({"op": "Get", "uid": t})
+        r = c.request(items, cont="CONTINUE") if len(items) > 1 else c.request(items)
+        self.counts["read-target"] = self.counts.get("read-target", 0) + 1
+        key = "other:read-target:%s" % mode
+        self.counts[key] = self.counts.get(key, 0) + 1
 
     def _cli(self, who="alice"):
         return H.Client(self.server, who, None, self.v)
@@ -845,6 +882,9 @@ class Others(object):
             return
         if k == "locate":
             self._note(k, self._cli().one({"op": "Locate"}))
+            return
+        if k == "read-target":
+            self.read_target(s)
             return
         if not self.uids:
             return
@@ -961,6 +1001,7 @@ def run_case(spec):
             return {"buckets": dedup(buckets), "classes": classes, "nontrivial": False, "status": "broken",
                     "bumps": bumps}
         # first reading: immediately
+        others.targets = [e["uid"] for e in entries]
         first = {e["uid"]: read_all(drv, e, spec) for e in entries}
         for s in spec.get("inter", []):
             others.step(s)
